@@ -19,6 +19,54 @@ def replay(spec):
     d = tempfile.mkdtemp(prefix="bioscrape-verif-c13r-", dir="/var/tmp")
     path = os.path.join(d, "m.xml")
     problems = []
+    if spec.get("aspect") == "module-level state kept between imports":
+        # many documents read one after the other in ONE process: documents that share formula texts but declare their species and
+        # parameters in other orders; every imported model is checked against its own document
+        import gc
+        import random as _rnd
+        rng = _rnd.Random(5)
+        base = [C13gen.spec_for(spec["index"] + k_, spec.get("seed", 0)) for k_ in range(3)]
+        bad = []
+        try:
+            for it in range(240):
+                sp_ = dict(base[it % 3])
+                ks = list(sp_["species"])
+                gs = list(sp_["globals"])
+                rng.shuffle(ks)
+                rng.shuffle(gs)
+                sp_["species"] = {k_: sp_["species"][k_] for k_ in ks}
+                sp_["globals"] = {g_: sp_["globals"][g_] for g_ in gs}
+                C13gen.write_document(sp_, path)
+                M_ = import_sbml(path, sbml_warnings=False)
+                state = {s_: 1.5 + i_ for i_, s_ in enumerate(C13gen.SPECIES)}
+                glob = dict(sp_["globals"])
+                if any(g_ not in M_.get_parameter_dictionary() for g_ in glob):
+                    bad.append("import %d: a global parameter is missing" % it)
+                    break
+                itf_ = ModelCSimInterface(M_)
+                itf_.py_prep_deterministic_simulation()
+                order = M_.get_species_list()
+                x = np.array([state[s_] for s_ in order], dtype=float)
+                dx = np.zeros(len(order))
+                itf_.py_apply_repeated_rules(x, 0.0, True)
+                itf_.py_calculate_deterministic_derivative(x, dx, 0.0)
+                want, st2, gl2, dp = C13gen.reference_derivative(sp_, state, glob)
+                assigned = {r_["var"] for r_ in sp_["rules"] if r_["kind"] == "assign"}
+                for i_, s_ in enumerate(order):
+                    if s_ not in assigned and abs(dx[i_] - want[s_]) > 1e-9 * max(1, abs(want[s_])):
+                        bad.append("import %d in one process: d%s/dt = %r, the document read just now gives %r" % (it + 1, s_, dx[i_], want[s_]))
+                if bad:
+                    break
+                del M_, itf_
+                if it % 7 == 0:
+                    gc.collect()
+        finally:
+            try:
+                os.remove(path)
+                os.rmdir(d)
+            except OSError:
+                pass
+        return {"reproduced": bool(bad), "observed": bad[:3], "expected": "every import has the semantics of its own document, whatever was read before"}
     try:
         C13gen.write_document(sp, path)
         try:
